@@ -1,19 +1,23 @@
 """
 C20 — Documented entry points complete on valid input.
 
-proof     : TamocV/Props/C20.lean — `<f>_wd` theorems: for every straight-line routine regenerated from
-            seawater.py and dbm_p.py the generated well-definedness predicate (no zero denominator, no
-            log / sqrt / real-power domain error) holds on the documented ranges, i.e. in exact
-            arithmetic the routine returns a finite value there
-tie       : translators re-run on every check (Gen.SeawaterPy, Gen.PhysPy); translator validation by
-            execution is done by C13 / C08
-real code : the "rather than raising" half is run-time behaviour (NumPy >= 2 scalar slots, 1-D ODE
-            right-hand sides, Python 3 containers ...) and is decided HERE by calling the real entry
-            points: the list of documented public entry points is parsed at run time from
-            docs/_sources/modules/*.rst of the repo under test; TABLE maps each of them to a caller
-            (valid seeded inputs in the documented ranges) or to an exclusion reason; every call must
-            return without raising and every float in the flattened result must be finite (NaN only
-            where NaN is the documented value)
+proof     : TamocV/Props/C20.lean — 14 theorems about definitions regenerated from seawater.py / dbm_p.py: the generated
+            well-definedness predicate (no zero denominator, no log / sqrt / real-power domain error) holds on the
+            documented ranges for 13 scalar routines — eotvos, morton, reynolds, h_parameter, particle_shape, theta_w_sc,
+            us_spherical_cap, us_sphere, surface_area_sc (Gen.PhysPy), mu, sigma, k, density (Gen.SeawaterPy) — plus
+            morton_pos.  NOT proved: us_ellipsoid, surface_area_sphere, cp, the vector routines xfer_*, every EOS routine.
+tie       : translators re-run on every check (Gen.SeawaterPy, Gen.PhysPy); translator validation by execution is done
+            by C13 / C08
+real code : everything else, and the whole "rather than raising" half (run-time behaviour of NumPy >= 2 scalar slots, 1-D
+            ODE right-hand sides, Python 3 containers ...), is decided HERE by calling the real entry points: the list of
+            documented public entry points is parsed at run time from docs/_sources/modules/*.rst of the repo under test
+            (the Sphinx SOURCES of docs/modules/*.html); TABLE maps each of them to a caller (valid seeded inputs in the
+            documented ranges) or to an exclusion reason; every call must return — within a time limit, without raising —
+            and every float in the flattened result must be finite; NaN is accepted only in the exactly described slots
+            where it is the documented value.  Coverage is an obligation: no uncovered / never-called entry point, call
+            floors, reach floors, pinned inventory, unfiltered run.
+keys      : raises:<entry point>:<ExceptionType>@<file>:<function of the innermost tamoc frame>[:<special input kind>],
+            nonfinite:<entry point>[:<recorded shape>], hang:<entry point>
 """
 import io
 import os
@@ -33,35 +37,46 @@ import numpy as np
 import common
 
 META = {
-    'text': ('Two halves. (1) "finite": Lean 4 theorems over the reals, for every straight-line routine that the '
-             'translator regenerates from seawater.py and dbm_p.py on each run, that the generated well-definedness '
-             'predicate holds on the documented ranges (no zero denominator, no log/sqrt/real-power domain error), so in '
-             'exact arithmetic the routine returns a finite value. (2) "rather than raising" is run-time behaviour of the '
-             'installed NumPy/SciPy/Python and is decided by CALLING the real code: the ~300 public entry points listed in '
-             'docs/_sources/modules/*.rst are parsed at run time; each is either called several times on valid seeded '
-             'inputs in its documented ranges (property methods of mixtures and particles incl. hydrate stability and '
-             'equilibrium, profile construction/queries, single-particle / bent-plume / stratified-plume simulations '
-             'with soluble and inert particles and all their non-plotting post-processing incl. save/load, size-'
-             'distribution models, the blowout wrapper, dbm_utilities, params.Scales) or excluded with a stated reason; '
-             'a raise or a non-finite float (other than a documented NaN) is a violation with the inputs to replay.'),
+    'text': ('Two halves. (1) "finite", PROVED only for 13 scalar routines: Lean 4 theorems over the reals that the generated '
+             'well-definedness predicate (no zero denominator, no log/sqrt/real-power domain error) of the definitions the '
+             'translator regenerates from source on each run holds on the documented ranges — dbm_p: eotvos, morton, reynolds, '
+             'h_parameter, particle_shape, theta_w_sc, us_spherical_cap, us_sphere, surface_area_sc; seawater: mu, sigma, k, '
+             'density (+ morton_pos; 14 theorems, listed in evidence.theorems). Not proved: us_ellipsoid, surface_area_sphere, cp, '
+             'the vector xfer_* routines, all EOS routines. (2) Everything else, and "rather than raising" altogether, is run-time '
+             'behaviour of the installed NumPy/SciPy/Python and is decided by CALLING the real code: the 300 public entry points '
+             'listed in docs/_sources/modules/*.rst (Sphinx sources of docs/modules) are parsed at run time; each is either called '
+             'at least twice on valid seeded inputs in its documented ranges (property methods of mixtures and gas / liquid / '
+             'two-phase / rigid and fluid inert particles incl. hydrate stability and equilibrium, profile construction/queries, '
+             'single-particle / bent-plume / stratified-plume simulations with soluble and inert particles and all their '
+             'non-plotting post-processing incl. save/load, size-distribution models, the blowout wrapper, dbm_utilities, '
+             'params.Scales) or excluded with a stated reason (37: module headers, plotting, 2 documented-unusable). A raise, a '
+             'call that does not return within the time limit, or a non-finite float outside the exactly described documented-NaN '
+             'slots is a violation with the inputs to replay; coverage (no uncovered / uncalled entry point, call and reach '
+             'floors, pinned inventory, unfiltered run, installed NumPy/SciPy >= declared minimum) is an obligation.'),
     'note': ('Trusted: Lean kernel + 3 standard axioms; translator py2ir/ir2lean (validated by execution in C13/C08); real '
-             'arithmetic for doubles. Partial: only the seawater / dbm_p scalar routines are proved finite; everything else '
-             '(EOS loops, flash, ODE integrations, I/O) is decided by sampling the real entry points on generated valid '
-             'inputs - a raise that needs an input outside the generators is not seen. Plotting entry points, loaders of '
-             'external oil libraries and module/section headers are excluded (counts by reason in the evidence); documented '
-             'entry points that have no caller are listed as `uncovered`.'),
-    'technique': ('Lean 4 well-definedness theorems over definitions regenerated from source + exhaustive call-through of the '
-                  'documented API (parsed from the docs) on seeded valid inputs with a finiteness predicate'),
+             'arithmetic for doubles. Partial: 13 scalar routines of seawater.py / dbm_p.py are proved finite; everything else '
+             '(remaining dbm_p routines, EOS loops, flash, ODE integrations, I/O) is decided by SAMPLING the real entry points on '
+             'generated valid inputs — a raise that needs an input outside the generators is not seen; constructors and methods '
+             'returning None are judged by the numeric attributes they leave behind. Only names listed in docs/_sources/modules are '
+             'entry points: lmp, smp, psf, chemical_properties, model_share are undocumented and reached only through the documented '
+             'callers. The two-phase particle / flash cases of the quick tier are pre-screened for a fast, two-phase flash (the '
+             'thorough tier also draws unscreened feeds). Recorded defects are matched by exception type + innermost tamoc frame + '
+             'input kind, or by the exact shape of the non-finite rows; anything else at the same scenario is a violation.'),
+    'technique': ('Lean 4 well-definedness theorems over definitions regenerated from source (13 routines) + call-through of the whole '
+                  'documented API (parsed from the docs) on seeded valid inputs with a finiteness / termination predicate and coverage '
+                  'obligations'),
 }
 GEN = ['seawater', 'phys']
 MODULES = ['TamocV.Props.C20', 'TamocV.Gen.SeawaterPy', 'TamocV.Gen.PhysPy']
 RULE = ('entry points = names under `.. currentmodule::` + autosummary in docs/_sources/modules/*.rst of the repo under test; '
-        'per entry point several seeded inputs (quick 3, thorough 30; simulations quick 1-2 per model, thorough ~10, reused '
-        'by all post-processing entry points) drawn inside the documented ranges: seawater states T 271-313 K, S 0-42, P 1e5-'
-        '1.1e8 Pa; particle sizes 0.1-20 mm; database mixtures of 1-6 compounds at 270-420 K, 1e5-5e7 Pa; gas, liquid, '
-        'two-phase and inert particles; synthetic stably stratified casts 200-3000 m with and without currents / dissolved '
-        'compounds, world-ocean profile, netCDF / xarray / array input forms; releases 100-1500 m deep; a case is '
-        'non-trivial when its (entry point, input kind) key is new')
+        'per entry point at least 2 calls, normally quick 3 / thorough 30 seeded inputs (simulations quick 2 per model, thorough 10 — '
+        'blowout 2 / 5 —, reused by all post-processing entry points) drawn inside the documented ranges with fixed schedules so that '
+        'every tier reaches: seawater T 271-313 K (Gill branch), 313-373 K (Sun et al. branch) and 373-450 K, S = 0 / 0-35 / 35-42, '
+        'P 1e5-1.1e8 Pa; particle sizes 0.1-20 mm; database mixtures of 1-6 compounds at 270-420 K, 1e5-5e7 Pa; gas, liquid, '
+        'two-phase (flash pre-screened fast and two-phase), fluid and rigid inert particles; synthetic casts 200-3000 m with and '
+        'without density inversions, currents, dissolved compounds, world-ocean profile, netCDF / xarray / array input forms; '
+        'releases 100-1500 m deep with soluble, inert and mixed particle lists, tracked and untracked; a case is non-trivial when '
+        'its (entry point, input kind) key is new')
 LEVEL_NOTE = META['note']
 LEANCHECKER = True
 
@@ -205,6 +220,24 @@ def tamoc_frame(tb):
     return loc
 
 
+def raise_signature(e, tb):
+    """mechanism of a raise: exception type + innermost frame inside the package under test, `Type@file.py:function`
+    (no line number: it moves with unrelated edits).  A raise that never entered tamoc is marked `@harness`."""
+    where = 'harness'
+    for fr in traceback.extract_tb(tb):
+        if os.sep + 'tamoc' + os.sep in fr.filename:
+            where = '%s:%s' % (os.path.basename(fr.filename), fr.name)
+    return '%s@%s' % (type(e).__name__, where)
+
+
+class Finding(object):
+    """returned by a thunk that has itself established a non-finite result of one exactly characterised, recorded shape
+    (`kind`): reported under the key `nonfinite:<entry point>:<kind>`.  Anything that does not match the recorded
+    shape must be returned raw so that the generic predicate (and the generic key) applies."""
+    def __init__(self, kind, detail):
+        self.kind, self.detail = kind, detail
+
+
 class _Failed(object):
     def __repr__(self):
         return 'FAILED'
@@ -239,6 +272,10 @@ def time_limit(seconds):
         signal.signal(signal.SIGALRM, old)
 
 
+class AbortRun(Exception):
+    """three entry points did not return: the rest of the run is abandoned (every coverage obligation then fails)"""
+
+
 class CallFailed(Exception):
     """an attempted entry-point call raised or returned non-finite values (already recorded)"""
 
@@ -261,7 +298,9 @@ class Scn(object):
         self.kinds = {}                      # ep -> set of kinds
         self.preconditions = {}              # ep -> count of skipped cases (documented precondition not met)
         self.slow = []                       # calls that took more than 20 s
-        self.call_limit = ctx.n(25., 300.)   # s per call; a call that takes longer is abandoned and noted (speed is no property)
+        self.nhang = 0
+        self.reach = {}                      # branch / configuration -> how often reached (floors in run())
+        self.call_limit = ctx.n(120., 600.)  # s per call; an entry point that has not returned by then is a `hang:` violation
         self.t0 = time.time()
         self.budget = ctx.n(140., 1500.)     # s; afterwards repetitions shrink to 1
         os.makedirs(SCRATCH, exist_ok=True)
@@ -281,6 +320,9 @@ class Scn(object):
 
     def cleanup(self):
         shutil.rmtree(self.root, ignore_errors=True)
+
+    def reached(self, what, k=1):
+        self.reach[what] = self.reach.get(what, 0) + k
 
     def skip(self, ep, why):
         self.preconditions.setdefault(ep, {})
@@ -315,17 +357,32 @@ class Scn(object):
         except (KeyboardInterrupt, SystemExit, MemoryError):
             raise
         except _Timeout:
-            self.slow.append((ep, kind, 'abandoned after %g s' % self.call_limit, J(inputs)))
+            # "complete on valid input": an entry point that does not come back within the (generous) limit is a violation
+            self._violate('hang:' + ep, '%s did not return within %g s for a valid input (%s)' % (ep, self.call_limit, kind),
+                          {'entry_point': ep, 'input_kind': kind, 'inputs': J(inputs), 'limit_s': self.call_limit, 'seed': self.ctx.seed})
+            self.nhang += 1
+            if self.nhang >= 3:
+                raise AbortRun('3 entry points did not return within %g s' % self.call_limit)
             if need:
                 raise CallFailed(ep)
             return FAILED
         except BaseException as e:      # noqa: BLE001 — the property is exactly "does not raise"
             tb = sys.exc_info()[2]
-            self._violate('raises:' + ep + suffix,
+            sig = raise_signature(e, tb)
+            # key = entry point + mechanism (exception type @ innermost tamoc frame) [+ special input kind]: a recorded defect is
+            # matched only by the same error from the same routine at the same kind of input
+            self._violate('raises:%s:%s%s' % (ep, sig, suffix),
                           '%s raised %s for a valid input (%s)' % (ep, type(e).__name__, kind),
-                          {'entry_point': ep, 'input_kind': kind, 'inputs': J(inputs), 'exception': '%s: %s' % (type(e).__name__, str(e)[:300]),
-                           'failing_line': tamoc_frame(tb),
+                          {'entry_point': ep, 'input_kind': kind, 'signature': sig, 'inputs': J(inputs),
+                           'exception': '%s: %s' % (type(e).__name__, str(e)[:300]), 'failing_line': tamoc_frame(tb),
                            'traceback': ''.join(traceback.format_exception(type(e), e, tb))[-2500:], 'seed': self.ctx.seed})
+            if need:
+                raise CallFailed(ep)
+            return FAILED
+        if isinstance(res, Finding):
+            self._violate('nonfinite:%s:%s' % (ep, res.kind),
+                          '%s returned non-finite values of the recorded shape %r (%s)' % (ep, res.kind, kind),
+                          {'entry_point': ep, 'input_kind': kind, 'inputs': J(inputs), 'nonfinite': J(res.detail), 'seed': self.ctx.seed})
             if need:
                 raise CallFailed(ep)
             return FAILED
@@ -351,12 +408,14 @@ class Scn(object):
                     self.cache[name] = ('ok', BUILDERS[name](self))
             except (CallFailed, Blocked) as e:
                 self.cache[name] = ('blocked', str(e))
+            except AbortRun:
+                raise
             except ImportError:
                 raise                          # a missing harness module / tamoc module is an infrastructure failure (exit 2)
             except Exception as e:            # noqa: BLE001
                 tb = sys.exc_info()[2]
                 owner = BUILDER_OWNER.get(name, 'harness')
-                self._violate('raises:' + owner, 'building the shared scenario %r raised %s' % (name, type(e).__name__),
+                self._violate('raises:%s:%s' % (owner, raise_signature(e, tb)), 'building the shared scenario %r raised %s' % (name, type(e).__name__),
                               {'entry_point': owner, 'scenario': name, 'exception': '%s: %s' % (type(e).__name__, str(e)[:300]),
                                'failing_line': tamoc_frame(tb),
                                'traceback': ''.join(traceback.format_exception(type(e), e, tb))[-2500:], 'seed': self.ctx.seed})
@@ -585,29 +644,50 @@ exclude('docstring: "DO NOT CALL THIS FUNCTION DIRECTLY" (exercised through ambi
 # seawater
 # =====================================================================================================
 
+# every run visits the three temperature ranges of seawater.py (Gill/EOS-80 branch below 40 deg C, Sun et al. branch above,
+# liquid water above the normal boiling point under pressure) and the salinity classes S = 0, S > 35 and in between
+SW_SCHEDULE = [('cold', 'S=0'), ('hot', 'S>35'), ('above-boiling', 'mid'), ('cold', 'S>35'), ('hot', 'S=0'), ('cold', 'mid'),
+               ('above-boiling', 'S>35'), ('hot', 'mid'), ('above-boiling', 'S=0')]
+
+
+def _sw_case(S, i):
+    r = S.r
+    tk, sk = SW_SCHEDULE[i % len(SW_SCHEDULE)]
+    T = {'cold': r.uniform(271., 313.15), 'hot': r.uniform(313.15, 373.15), 'above-boiling': r.uniform(373.15, 450.)}[tk]
+    Sa = {'S=0': 0., 'S>35': r.uniform(35.01, 42.), 'mid': r.uniform(0., 35.)}[sk]
+    P = r.choice([101325., lu(r, 1e5, 1.1e8)]) if tk != 'above-boiling' else lu(r, 2e6, 1.1e8)     # liquid above 100 deg C
+    if tk == 'hot':
+        S.reached('seawater:hot-branch')
+    if tk == 'above-boiling':
+        S.reached('seawater:above-boiling')
+    return tk + ':' + sk, T, Sa, P
+
+
 @entry('seawater.density', 'seawater.mu', 'seawater.k')
 def _sw_tsp(S):
     from tamoc import seawater
     for f in ('density', 'mu', 'k'):
-        for i in range(S.reps()):
-            hot = i % 4 == 3
-            T, Sa, P = sw_state(S.r, hot)
-            S.attempt('seawater.' + f, 'hot' if hot else 'cold', {'T': T, 'S': Sa, 'P': P},
+        for i in range(max(S.reps(), 4)):
+            kind, T, Sa, P = _sw_case(S, i)
+            if f == 'k' and Sa > 35.:
+                S.reached('seawater.k:S>35')
+            S.attempt('seawater.' + f, kind, {'T': T, 'S': Sa, 'P': P},
                       lambda f=f, T=T, Sa=Sa, P=P: getattr(seawater, f)(T, Sa, P))
 
 
 @entry('seawater.sigma')
 def _sw_sigma(S):
     from tamoc import seawater
-    for i in range(S.reps()):
-        T, Sa, _P = sw_state(S.r, i % 4 == 3)
-        S.attempt('seawater.sigma', 'scalar', {'T': T, 'S': Sa}, lambda T=T, Sa=Sa: seawater.sigma(T, Sa))
+    for i in range(max(S.reps(), 4)):
+        kind, T, Sa, _P = _sw_case(S, i)
+        S.attempt('seawater.sigma', kind, {'T': T, 'S': Sa}, lambda T=T, Sa=Sa: seawater.sigma(T, Sa))
 
 
 @entry('seawater.cp')
 def _sw_cp(S):
     from tamoc import seawater
-    S.attempt('seawater.cp', 'constant', {}, lambda: seawater.cp())
+    for _ in range(2):
+        S.attempt('seawater.cp', 'constant', {}, lambda: seawater.cp())
 
 
 @entry('seawater.pH')
@@ -744,7 +824,7 @@ def _dbm_p_eos(S):
     e = mixgen.eos_args(fm)
     S.attempt('dbm_p.viscosity', 'hydrogen-rich', d,
               lambda: dbm_p.viscosity(T, P, m.copy(), e['Mol_wt'], e['Pc'], e['Tc'], e['Vc'], e['omega'], e['delta'].copy(), e['Aij'],
-                                      e['Bij'], e['delta_groups'], e['calc_delta'], e['C_pen'], e['C_pen_T']), edge=True)
+                                      e['Bij'], e['delta_groups'], e['calc_delta'], e['C_pen'], e['C_pen_T']))
 
 
 @entry('dbm_p.kh_insitu', 'dbm_p.sw_solubility', 'dbm_p.diffusivity', 'dbm_p.kvsi_hydrate')
@@ -772,6 +852,32 @@ def _dbm_p_sol(S):
 # =====================================================================================================
 # dbm — FluidMixture
 # =====================================================================================================
+
+def _two_phase_case(S, limit=0.3, tries=40):
+    """a light + heavy hydrocarbon feed at a state where the flash (i) ends with a gas AND a liquid phase and (ii) converges
+    within `limit` seconds — input selection only (near-critical / near-bubble-point flashes of the same package take up to
+    minutes and would exhaust the run-time budget of the quick tier; the thorough tier also draws unscreened states).
+    -> (spec, FluidMixture, masses of one mole of feed, T, P)"""
+    from tamoc import dbm
+    r = S.r
+    for _ in range(tries):
+        sp = fluid_spec(r, 'mixed')
+        fm = dbm.FluidMixture(list(sp['composition']))
+        m = fm.masses(np.array(sp['yk']))
+        P, _Sa, Ta = ocean_state(r)
+        T = Ta + r.choice([0., r.uniform(0., 40.)])
+        t1 = time.time()
+        try:
+            with quiet(), time_limit(limit):
+                mi, _xi, _K = fm.equilibrium(m.copy(), T, P)
+        except _Timeout:
+            continue
+        except Exception:      # noqa: BLE001  (a raising flash is found by the attempts on unscreened feeds)
+            continue
+        if time.time() - t1 <= limit and np.sum(mi[0, :]) > 0. and np.sum(mi[1, :]) > 0.:
+            return sp, fm, m, T, P
+    raise RuntimeError('no fast two-phase flash state found in %d draws' % tries)
+
 
 def _single_phase(mi):
     return bool(np.sum(mi[0, :]) == 0. or np.sum(mi[1, :]) == 0.)
@@ -810,6 +916,7 @@ def _fm_basic(S):
         d0 = {'composition': comp, 'delta_mode': mode}
         fm = S.attempt('dbm.FluidMixture', 'database:' + mode, d0,
                        lambda comp=comp, kw=kw: dbm.FluidMixture(list(comp), **kw), need=True)
+        S.attempt('dbm.FluidMixture', 'database:' + mode + ':attributes', d0, lambda: _obj_numbers(fm))
         m = mixgen.masses(r, fm.nc)
         n = m / fm.M
         T, P = r.uniform(270., 420.), lu(r, 1e5, 5e7)
@@ -828,7 +935,7 @@ def _fm_basic(S):
             S.attempt('dbm.FluidMixture.' + nm, k, dict(d, Sa=Sa, Ta=Ta), th)
     # hydrogen-dominated mixture (hydrogen is a compound of the distributed database): own key, see _h2_case
     fm, m, T, P, d = _h2_case(S)
-    S.attempt('dbm.FluidMixture.viscosity', 'hydrogen-rich', d, lambda: fm.viscosity(m.copy(), T, P), edge=True)
+    S.attempt('dbm.FluidMixture.viscosity', 'hydrogen-rich', d, lambda: fm.viscosity(m.copy(), T, P))
 
 
 @entry('dbm.FluidMixture.interface_tension')
@@ -864,21 +971,26 @@ def _fm_equil(S):
     from tamoc import dbm
     r = S.r
     for i in range(S.reps()):
-        sp = fluid_spec(r, r.choice(['mixed', 'mixed', 'gas', 'liquid']))
-        fm = dbm.FluidMixture(list(sp['composition']))
-        m = fm.masses(np.array(sp['yk']))
+        which = ('two-phase', 'gas', 'liquid', 'unscreened')[i % 4] if S.ctx.thorough else ('two-phase', 'gas', 'liquid')[i % 3]
+        if which == 'two-phase':
+            sp, fm, m, T, P = _two_phase_case(S)
+        else:
+            sp = fluid_spec(r, 'mixed' if which == 'unscreened' else which)
+            fm = dbm.FluidMixture(list(sp['composition']))
+            m = fm.masses(np.array(sp['yk']))
+            T, P = r.uniform(275., 400.), lu(r, 1e5, 3e7)
         if i % 4 == 3 and fm.nc > 1:
             m[r.randrange(fm.nc)] = 0.          # documented: zero entries are substituted (replace_zeros)
-        T, P = r.uniform(275., 400.), lu(r, 1e5, 3e7)
         d = {'composition': sp['composition'], 'm': m, 'T': T, 'P': P}
-        res = S.attempt('dbm.FluidMixture.equilibrium', sp['kind'], d,
+        res = S.attempt('dbm.FluidMixture.equilibrium', which, d,
                         lambda fm=fm, m=m, T=T, P=P: _equil_result(fm.equilibrium(m.copy(), T, P)))
         if res is FAILED:
             continue
         K = res.nan_ok if isinstance(res, NanOK) else res[2]
+        S.reached('equilibrium:single-phase' if isinstance(res, NanOK) else 'equilibrium:two-phase')
         if not np.any(np.isnan(K)):
             # warm start with the converged K (documented optional argument)
-            S.attempt('dbm.FluidMixture.equilibrium', sp['kind'] + ':warm-K', dict(d, K=K),
+            S.attempt('dbm.FluidMixture.equilibrium', which + ':warm-K', dict(d, K=K),
                       lambda fm=fm, m=m, T=T, P=P, K=K: _equil_result(fm.equilibrium(m.copy(), T * 1.01, P, K=np.array(K))))
 
 
@@ -917,14 +1029,21 @@ def _fp_all(S):
     r = S.r
     nrep = S.reps()
     for i in range(nrep):
-        # two-phase particles re-run the flash inside every individual property method (slow): one case in six
-        kind = 'mixed' if (i % 6 == 5 or (nrep <= 3 and i == 2)) else ('gas', 'liquid')[i % 2]
-        sp = fluid_spec(r, kind)
+        # gas, liquid and two-phase particle in turn (every tier reaches all three).  The two-phase particle sits at a state
+        # where its flash gives gas AND liquid and converges fast (_two_phase_case): every individual property method
+        # re-runs that flash
+        kind = ('gas', 'liquid', 'mixed')[i % 3]
+        if kind == 'mixed':
+            sp, _fm, _m1, T, P = _two_phase_case(S)
+            Sa, Ta = r.uniform(32., 36.5), T
+        else:
+            sp = fluid_spec(r, kind)
+            P, Sa, Ta = ocean_state(r)
+            T = Ta + r.choice([0., r.uniform(0., 25.)])
         fp = S.attempt('dbm.FluidParticle', kind, sp,
                        lambda sp=sp: dbm.FluidParticle(list(sp['composition']), fp_type=sp['fp_type']), need=True)
+        S.attempt('dbm.FluidParticle', kind + ':attributes', sp, lambda: _obj_numbers(fp))
         yk = np.array(sp['yk'])
-        P, Sa, Ta = ocean_state(r)
-        T = Ta + r.choice([0., r.uniform(0., 25.)])
         de = lu(r, 1e-4, 2e-2)
         st = r.choice([1, -1])
         d = dict(sp, de=de, T=T, P=P, Sa=Sa, Ta=Ta, status=st)
@@ -953,15 +1072,18 @@ def _fp_all(S):
             ('heat_transfer', lambda: fp.heat_transfer(m.copy(), T, P, Sa, Ta, st)),
             ('return_all', lambda: fp.return_all(m.copy(), T, P, Sa, Ta, st)),
         ]
-        slow = False
+        two_phase = False
+        if kind == 'mixed':
+            with quiet():
+                mi = fp.equilibrium(m.copy(), T, P)[0]
+            two_phase = bool(np.sum(mi[0, :]) > 0. and np.sum(mi[1, :]) > 0.)
+        S.reached('FluidParticle:' + ('mixed-two-phase' if two_phase else kind))
+        if two_phase:
+            S.reached('FluidParticle.masses_by_diameter:mixed-two-phase')
         for nm, th in calls:
-            if slow and nm not in ('return_all',):
-                S.skip('tamoc.dbm.FluidParticle.' + nm, 'two-phase particle whose flash takes > 3 s per call: only density and return_all are run (run-time budget)')
-                continue
-            t1 = time.time()
             S.attempt('dbm.FluidParticle.' + nm, kind, d, th)
-            if kind == 'mixed' and nm == 'density' and time.time() - t1 > 3.:
-                slow = True
+            if two_phase:
+                S.reached('FluidParticle.%s:mixed-two-phase' % nm)
 
 
 # =====================================================================================================
@@ -977,13 +1099,17 @@ def _ip_all(S):
     from tamoc import dbm
     r = S.r
     for i in range(S.reps()):
-        sp = inert_spec(r, sand=(i % 4 == 3))
+        sp = inert_spec(r, sand=(i % 3 == 1))          # fluid / rigid settling / fluid ... : every tier reaches a rigid particle
+        if i % 3 == 2:
+            sp['isfluid'] = True
         sp['k_bio'], sp['t_bio'] = r.choice([0., 1e-6]), r.choice([0., 3600.])
         kind = 'rigid-settling' if not sp['isfluid'] and sp['rho_p'] > 1100. else ('fluid' if sp['isfluid'] else 'rigid')
         ip = S.attempt('dbm.InsolubleParticle', kind, sp,
                        lambda sp=sp: dbm.InsolubleParticle(sp['isfluid'], sp['iscompressible'], rho_p=sp['rho_p'], gamma=sp['gamma'],
                                                            beta=sp['beta'], co=sp['co'], k_bio=sp['k_bio'], t_bio=sp['t_bio'],
                                                            fp_type=sp['fp_type']), need=True)
+        S.reached('InsolubleParticle:' + ('fluid' if sp['isfluid'] else 'rigid'))
+        S.attempt('dbm.InsolubleParticle', kind + ':attributes', sp, lambda: _obj_numbers(ip))
         P, Sa, Ta = ocean_state(r)
         T = Ta + r.choice([0., r.uniform(0., 25.)])
         de = lu(r, 1e-4, 1e-2)
@@ -1026,11 +1152,16 @@ def _ip_all(S):
 def _dbm_helpers(S):
     from tamoc import dbm, dbm_p
     r = S.r
-    for _ in range(S.reps()):
-        sp = fluid_spec(r, r.choice(['mixed', 'mixed', 'gas', 'liquid']))
-        fm = dbm.FluidMixture(list(sp['composition']))
-        m = fm.masses(np.array(sp['yk']))
-        T, P = r.uniform(275., 400.), lu(r, 1e5, 3e7)
+    for i in range(S.reps()):
+        which = ('two-phase', 'gas', 'liquid', 'unscreened')[i % 4] if S.ctx.thorough else ('two-phase', 'gas', 'liquid')[i % 3]
+        if which == 'two-phase':
+            sp, fm, m, T, P = _two_phase_case(S)
+        else:
+            sp = fluid_spec(r, 'mixed' if which == 'unscreened' else which)
+            fm = dbm.FluidMixture(list(sp['composition']))
+            m = fm.masses(np.array(sp['yk']))
+            T, P = r.uniform(275., 400.), lu(r, 1e5, 3e7)
+        sp = dict(sp, kind=which)
         d = {'composition': sp['composition'], 'm': m, 'T': T, 'P': P}
         args = (fm.M, fm.Pc, fm.Tc, fm.omega, fm.delta, fm.Aij, fm.Bij, fm.delta_groups, fm.calc_delta)
 
@@ -1650,7 +1781,7 @@ def _amb_arrays(S):
     S.attempt('ambient.compute_pressure', 'negative-depths:surface-first', {'cast': ps},
               lambda: ambient.compute_pressure(-z.copy(), T.copy(), Sa.copy(), 0), edge=True)
     S.attempt('ambient.compute_pressure', 'positive-depths:surface-last', {'cast': ps},
-              lambda: ambient.compute_pressure(z[::-1].copy(), T[::-1].copy(), Sa[::-1].copy(), -1), edge=True)
+              lambda: ambient.compute_pressure(z[::-1].copy(), T[::-1].copy(), Sa[::-1].copy(), -1))
     shallow = data[data[:, 0] < 40., :]
     S.attempt('ambient.extract_profile', 'cast-shallower-than-z_start', {'depths': shallow[:, 0], 'z_start': 50.},
               lambda: ambient.extract_profile(shallow.copy(), z_col=0, z_start=50.), edge=True)
@@ -1693,6 +1824,7 @@ def _psm_base(S):
     for i in range(S.reps()):
         fl = _jet_fluids(r)
         mb = S.attempt(P, 'fluids', fl, lambda: psm.ModelBase(*[fl[k] for k in order]), need=True)
+        S.attempt(P, 'fluids:attributes', fl, lambda: _obj_numbers(mb))
         for fp in (0, 1):
             S.attempt(P + '.get_de_max', 'before-simulate:fp%d' % fp, fl, lambda fp=fp: mb.get_de_max(fp))
         fl2 = _jet_fluids(r)
@@ -1722,7 +1854,7 @@ def _psm_base(S):
     def wang_rr():
         mb.simulate(0.2, 5., 30., model_gas='wang_etal', pdf_gas='rosin-rammler')
         return mb.get_distributions(10, 10)
-    S.attempt(P + '.get_distributions', 'wang_etal/rosin-rammler', d, wang_rr, edge=True)
+    S.attempt(P + '.get_distributions', 'wang_etal/rosin-rammler', d, wang_rr)
 
 
 @entry('particle_size_models.PureJet', 'particle_size_models.PureJet.update_properties', 'particle_size_models.PureJet.simulate',
@@ -1737,6 +1869,7 @@ def _psm_jet(S):
         a = (fl['rho_gas'], fl['mu_gas'], fl['sigma_gas']) if fp == 0 else (fl['rho_oil'], fl['mu_oil'], fl['sigma_oil'])
         d = dict(rho_p=a[0], mu_p=a[1], sigma_p=a[2], rho=fl['rho'], mu=fl['mu'], fp_type=fp)
         pj = S.attempt(P, 'fp%d' % fp, d, lambda: psm.PureJet(a[0], a[1], a[2], fl['rho'], fl['mu'], fp_type=fp), need=True)
+        S.attempt(P, 'fp%d:attributes' % fp, d, lambda: _obj_numbers(pj))
         S.attempt(P + '.get_de_max', 'before-simulate:fp%d' % fp, d, lambda: pj.get_de_max())
         S.attempt(P + '.update_properties', 'fp%d' % fp, d,
                   lambda: (pj.update_properties(a[0] * 1.01, a[1], a[2], fl['rho'], fl['mu'], fp), pj.get_de_max())[1])
@@ -1757,7 +1890,7 @@ def _psm_jet(S):
     def wang_rr():
         pj.simulate(0.2, 5., model='wang_etal', pdf='rosin-rammler')
         return pj.get_distributions(10)
-    S.attempt(P + '.get_distributions', 'wang_etal/rosin-rammler', dict(fl, d0=0.2, m=5., fp_type=0), wang_rr, edge=True)
+    S.attempt(P + '.get_distributions', 'wang_etal/rosin-rammler', dict(fl, d0=0.2, m=5., fp_type=0), wang_rr)
 
 
 def _live_oil(r, phases='two-phase'):
@@ -1868,7 +2001,8 @@ def _util_oil(S):
     def oil_numbers(res):
         oil, mf = res
         return [mf, oil.M, oil.Pc, oil.Tc, oil.omega, oil.delta]
-    S.attempt(U + 'natural_gas', 'constant', {}, lambda: du.natural_gas())
+    for _k in range(2):
+        S.attempt(U + 'natural_gas', 'constant', {}, lambda: du.natural_gas())
     for i in range(S.reps()):
         # ---- get_oil: dead oil + GOR, live oil without added gas, atmospheric gases, gas-rate specification
         gor = (0., lu(r, 50., 3000.), lu(r, 50., 3000.))[i % 3]
@@ -1925,14 +2059,14 @@ def _util_oil(S):
     # ---- documented argument forms with their own key
     dead = _dead_oil(r)
     dc, dmf, dud, ddelta, ddg, units = du.load_tamoc_oil(dict(dead))
-    S.attempt(U + 'print_chemdata', 'chems-None', {'composition': dc}, lambda: du.print_chemdata(dud, units), edge=True)
+    S.attempt(U + 'print_chemdata', 'chems-None', {'composition': dc}, lambda: du.print_chemdata(dud, units))
     live = du.mix_gas_for_gor(list(dc), dmf.copy(), dud, ddelta, None, 500.)
     S.attempt(U + 'print_petroleum_props', 'q_oil-given', dict(dead, gor=500., q_oil=20000.),
-              lambda: du.print_petroleum_props(list(live[0]), np.array(live[1]), dud, live[2], None, 285., 35., 1e7, q_oil=20000.), edge=True)
+              lambda: du.print_petroleum_props(list(live[0]), np.array(live[1]), dud, live[2], None, 285., 35., 1e7, q_oil=20000.))
     # Privat & Jaubert group contributions of the dead-oil compounds as an array ("delta_groups : None or np.array")
     fm = dbm.FluidMixture(list(dc), delta_groups={})
     S.attempt(U + 'mix_gas_for_gor', 'delta_groups-ndarray', dict(dead, gor=500.),
-              lambda: du.mix_gas_for_gor(list(dc), dmf.copy(), dud, ddelta, np.array(fm.delta_groups), 500.), edge=True)
+              lambda: du.mix_gas_for_gor(list(dc), dmf.copy(), dud, ddelta, np.array(fm.delta_groups), 500.))
 
 
 @entry('dbm_utilities.sequence_names', 'dbm_utilities.get_solubility', 'dbm_utilities.get_henry_constant',
@@ -1961,7 +2095,7 @@ def _util_pseudo(S):
         if pre is not FAILED:
             Tc, Pc, Vc_a, M, omega, delta = pre
             S.attempt(U + 'compute_Vb', 'array', {'Vc': Vc_a}, lambda: du.compute_Vb(Vc_a.copy()))
-        if i % 5 == 0:
+        if i < 2 or i % 5 == 0:
             # tune Vc of every component to a measured density (what load_simap_oil / load_adios_oil do); database compounds with
             # their handbook liquid densities at 15 deg C, so that this call does not depend on get_preos_params
             dens = {'n-hexane': 664., 'n-heptane': 688., 'benzene': 884., 'toluene': 871., 'ethylbenzene': 871., 'n-decane': 734.}
@@ -1973,7 +2107,7 @@ def _util_pseudo(S):
             S.attempt(U + 'Vc_tuning', 'database-compounds', dict(composition=cmp_, mass_frac=mfv, rho_i=rho_i),
                       lambda: {k: v['Vc'] for k, v in du.Vc_tuning(mfv.copy(), list(cmp_), np.array([288.15, 298.15]), np.array([rho_w, rho_w - 8.]),
                                                                    np.zeros(2), rho_i, delta2, ud2).items()})
-        if i % 5 == 0:
+        if i < 2 or i % 5 == 0:
             S.attempt(U + 'load_simap_oil', 'synthetic-table', d,
                       lambda: (lambda res: [res[1], {k: list(v.values()) for k, v in res[2].items()}, res[3]])(du.load_simap_oil(dict(sm))))
 
@@ -2056,6 +2190,7 @@ def _build_sbm(S):
         model = S.attempt('single_bubble_model.Model', 'profile', spec['profile'], lambda: sbm.Model(prf))
         if model is FAILED:
             continue
+        S.attempt('single_bubble_model.Model', 'profile:attributes', None, lambda: _obj_numbers(model.p))
         a = _sbm_args(spec, prf)
         obj = build_dbm(spec['particle'])
 
@@ -2065,6 +2200,7 @@ def _build_sbm(S):
             return model.t, model.y
         if S.attempt('single_bubble_model.Model.simulate', spec['particle']['kind'], spec, sim) is FAILED:
             continue
+        S.reached('sbm:inert' if spec['particle']['kind'] == 'inert' else 'sbm:soluble')
         sims.append({'model': model, 'spec': spec, 'prf': prf, 'dir': d, 'kind': spec['particle']['kind']})
     if not sims:
         raise Blocked('no single-particle simulation completed')
@@ -2072,6 +2208,32 @@ def _build_sbm(S):
 
 
 TABLE['tamoc.single_bubble_model.Model.simulate'] = lambda S: S.get('sbm_sims')
+
+
+SBM_ZERO_MASS_NAN = ('Particle temperature', 'Slip velocity', 'Particle density', 'Particle diameter', 'Heat transfer coefficient')
+
+
+def _sbm_derived(res, y):
+    """derived-variable table of the single bubble model.  Recorded defect (known_findings, `dissolved-particle`): the rows of
+    a bubble that has dissolved completely (all component masses exactly 0 — calculate_path clips the overshoot) hold NaN
+    temperature / slip velocity / density / diameter / heat-transfer coefficient.  ONLY that shape is reported under the
+    recorded key: the rows with a non-finite entry are exactly the zero-mass rows and only those columns are affected.
+    Any other non-finite entry (a positive-mass row, another column) goes to the generic predicate and key."""
+    data, names = np.asarray(res[0], dtype=float), res[1]
+    if isinstance(names, str):
+        names = [ln.split(':', 1)[1].strip() for ln in names.splitlines() if ln.strip().startswith('Col')]
+    bad = ~np.isfinite(data)
+    if not bad.any():
+        return res
+    y = np.asarray(y, dtype=float)
+    if data.ndim != 2 or data.shape[0] != y.shape[0] or len(names) != data.shape[1]:
+        return res
+    zero_rows = np.sum(y[:, 3:-1], axis=1) <= 0.
+    cols_ok = all(any(nm.startswith(pref) for pref in SBM_ZERO_MASS_NAN) for j, nm in enumerate(names) if bad[:, j].any())
+    if np.array_equal(bad.any(axis=1), zero_rows) and cols_ok and np.all(np.isnan(data[bad])):
+        return Finding('dissolved-particle', {'zero_mass_rows': np.flatnonzero(zero_rows), 'rows': int(data.shape[0]),
+                                              'columns': [nm for j, nm in enumerate(names) if bad[:, j].any()]})
+    return res
 
 
 @entry('single_bubble_model.Model', 'single_bubble_model.Model.get_derived_variables', 'single_bubble_model.Model.save_sim',
@@ -2084,15 +2246,12 @@ def _sbm_post(S):
         model, spec, kind, d = sim['model'], sim['spec'], sim['kind'], sim['dir']
         comp = list(model.particle.composition)
         tc = r.choice([None, comp[:1]])
-        # a bubble that dissolves completely ends with rows of zero mass (calculate_path clips the overshoot to 0): own input kind
-        gone = bool(np.any(np.sum(model.y[:, 3:-1], axis=1) <= 0.))
-        dk = 'dissolved-particle' if gone else kind
-        # the derived-variable table of an insoluble particle has its own key as well (no mass-transfer coefficients exist)
-        gone = gone or kind == 'inert'
-        S.attempt(M + 'get_derived_variables', dk, dict(spec, track_chems=tc), lambda: model.get_derived_variables(track_chems=tc), edge=gone)
+        S.attempt(M + 'get_derived_variables', kind, dict(spec, track_chems=tc),
+                  lambda: _sbm_derived(model.get_derived_variables(track_chems=tc), model.y))
         f_nc, f_txt, f_der = os.path.join(d, 'sbm.nc'), os.path.join(d, 'sbm_state'), os.path.join(d, 'sbm_derived.txt')
         S.attempt(M + 'save_txt', kind, spec, lambda: (model.save_txt(f_txt, 'profile.nc', 'C20 synthetic profile'), np.loadtxt(f_txt + '.txt'))[1])
-        S.attempt(M + 'save_derived_variables', dk, dict(spec, track_chems=tc), lambda: model.save_derived_variables(f_der, track_chems=tc), edge=gone)
+        S.attempt(M + 'save_derived_variables', kind, dict(spec, track_chems=tc),
+                  lambda: _sbm_derived(model.save_derived_variables(f_der, track_chems=tc), model.y))
         if S.attempt(M + 'save_sim', kind, spec, lambda: model.save_sim(f_nc, 'profile.nc', 'C20 synthetic profile')) is FAILED:
             continue
         m2 = sbm.Model(sim['prf'])
@@ -2103,7 +2262,7 @@ def _sbm_post(S):
         S.attempt(M + 'load_sim', kind, spec, load)
         m3 = S.attempt('single_bubble_model.Model', 'simfile', spec, lambda: sbm.Model(simfile=f_nc))
         if m3 is not FAILED:
-            S.attempt(M + 'get_derived_variables', dk if gone else kind + ':loaded', spec, lambda: m3.get_derived_variables(), edge=gone)
+            S.attempt(M + 'get_derived_variables', kind + ':loaded', spec, lambda: _sbm_derived(m3.get_derived_variables(), m3.y))
         # the particle list of the save file read back directly
         _load_particles_direct(S, f_nc, 'SingleParticle:model-file', spec)
 
@@ -2128,7 +2287,7 @@ def _sbm_functions(S):
         particle, y0 = ic[0]
         t = r.choice([0., r.uniform(0., 600.)])
         S.attempt('single_bubble_model.derivs', kind, dict(spec, t=t, y=y0), lambda: sbm.derivs(t, y0.copy(), prf, particle, p))
-        if i % 5 == 0:
+        if i < 2 or i % 5 == 0:
             short = dict(spec, z0=min(spec['z0'], prf.z_min + 60.))
             y1 = y0.copy()
             y1[2] = short['z0']
@@ -2149,14 +2308,22 @@ def _bpm_scenario(S, k):
     # methods need); then mixtures with inert particles, inert only, liquids
     mix = ('gas', 'gas+inert', 'oil', 'inert', 'oil+inert')[k % 5]
     track = (k % 2 == 0)
-    scn = scen_bpm.random_scenario(r, nparticles=r.randint(1, 3), depth=r.uniform(800., 1500.) if k % 5 == 0 else r.uniform(300., 1500.),
-                                   mix=mix, biodeg=r.choice([False, True]),
-                                   current=r.choice(['uniform', 'sheared']) if track else 'random', strat='normal', wa=False)
+    for _try in range(20):
+        scn = scen_bpm.random_scenario(r, nparticles=r.randint(2, 3) if '+' in mix else r.randint(1, 3),
+                                       depth=r.uniform(800., 1500.) if k % 5 == 0 else r.uniform(300., 1500.),
+                                       mix=mix, biodeg=r.choice([False, True]),
+                                       current=r.choice(['uniform', 'sheared']) if track else 'random', strat='normal', wa=False)
+        kinds = set(sp['kind'] for sp in scn['particles'])
+        if '+' not in mix or ('inert' in kinds and len(kinds) > 1):
+            break            # a "+inert" mix really holds soluble AND inert particles
     if track and scn['profile'].get('current'):
         for node in scn['profile']['current']['nodes']:
             if math.hypot(node[1], node[2]) < 0.03:
                 node[1] = 0.05                       # a crossflow that can advect the intrusion
     scn['track'] = track
+    if k % 5 == 0 and len(scn['release']['tracers']) != 1:
+        # the first scenario carries exactly one passive tracer (the configuration whose save file can be written and re-read)
+        scn['release']['tracers'], scn['release']['cj'] = ['tracer0'], [r.uniform(0.1, 10.)]
     scn['release']['sd_max'] = r.uniform(40., 150.)
     return scn
 
@@ -2179,33 +2346,57 @@ def _bpm_particles(S, prf, z0, specs):
     return parts
 
 
-def _bpm_pos_mask(model):
-    """boolean mask over the columns of the bent-plume state space: the three position slots of every particle"""
+def _positions_checked(q, pos_slices, particles=None):
+    """The coordinates of a particle that has left the plume are NaN by design (lmp.correct_particle_tracking docstring,
+    lmp.py l.389-435: "replaces the particle position after integration has stopped ... with NaN so that the post-processor
+    always knows whether the solution ... is valid").  Exactly that shape is accepted, per particle: the three local
+    coordinates are NaN together or not at all, never in the first row, and once NaN they stay NaN to the last row; with
+    `particles` (right after the simulation) the particle must also carry integrate == False.  A table of that shape is
+    returned with those slots zeroed (so that everything else is checked strictly); any other NaN leaves the table as it is
+    and the generic predicate reports it."""
+    q = np.array(q, dtype=float)
+    out = q.copy()
+    for i, (a, b) in enumerate(pos_slices):
+        nan3 = np.isnan(q[:, a:b])
+        rows = nan3.all(axis=1)
+        if not np.array_equal(rows, nan3.any(axis=1)) or (len(rows) and rows[0]):
+            return q
+        if rows.any():
+            first = int(np.argmax(rows))
+            if not rows[first:].all():
+                return q
+            if particles is not None and bool(particles[i].integrate):
+                return q
+            out[rows, a:b] = 0.
+    return out
+
+
+def _bpm_pos_slices(model):
     import scen_bpm
     lay = scen_bpm.layout(model.particles, len(model.chem_names), len(model.tracers))
-    pos = np.zeros(lay['len'], dtype=bool)
-    for pl in lay['particles']:
-        pos[pl['X'][0]:pl['X'][1]] = True
-    return pos
+    return [tuple(pl['X']) for pl in lay['particles']], lay['len']
 
 
-def _bpm_positions_ok(model):
-    """(t, q) of a bent-plume solution.  The coordinates of a particle that has left the plume are NaN by design
-    (lmp.correct_particle_tracking docstring, lmp.py l.389-435: "replaces the particle position after integration has
-    stopped ... with NaN so that the post-processor always knows whether the solution ... is valid") — those three
-    slots per particle only"""
+def _bpm_positions_ok(model, flags=False):
+    """(t, q) of a bent-plume solution with the documented NaN position slots validated (see _positions_checked)"""
     q = np.array(model.q, dtype=float)
-    pos = _bpm_pos_mask(model)
-    if len(pos) != q.shape[1]:
+    sl, n = _bpm_pos_slices(model)
+    if n != q.shape[1]:
         return model.t, q
-    return NanOK((model.t, q[:, ~pos]), q[:, pos], 'positions of particles outside the plume')
+    return model.t, _positions_checked(q, sl, model.particles if flags else None)
 
 
 def _lag_numbers(ql):
     strict = [ql.M, ql.S, ql.T, ql.rho, ql.rho_a, ql.u, ql.v, ql.w, ql.V, ql.h, ql.b, ql.sin_p, ql.cos_p, ql.sin_t, ql.cos_t, ql.phi,
-              ql.theta, ql.c_chems, ql.c_tracers, ql.mp, ql.fb, ql.Fb, ql.x, ql.y, ql.z, ql.s]
-    # x_p: Cartesian position of each particle, NaN once it is outside the plume (same documented convention as the state space)
-    return NanOK(strict, [ql.x_p, ql.X_p], 'positions of particles outside the plume')
+              ql.theta, ql.c_chems, ql.c_tracers, ql.mp, ql.fb, ql.Fb, ql.x, ql.y, ql.z, ql.s, ql.x_p]
+    # X_p: local coordinates taken from the state space — NaN (all three together) for a particle outside the plume; the
+    # Cartesian x_p comes from Particle.track, which then reports the exit position, and must be finite
+    Xp = np.atleast_2d(np.array(ql.X_p, dtype=float))
+    if Xp.size:
+        nan3 = np.isnan(Xp)
+        if np.array_equal(nan3.all(axis=1), nan3.any(axis=1)):
+            Xp = np.where(nan3, 0., Xp)
+    return strict, Xp
 
 
 @builder('bpm_sims', 'bent_plume_model.Model.simulate')
@@ -2228,6 +2419,7 @@ def _build_bpm(S):
         model = S.attempt('bent_plume_model.Model', 'profile', scn['profile'], lambda: bpm.Model(prf))
         if model is FAILED:
             continue
+        S.attempt('bent_plume_model.Model', 'profile:attributes', None, lambda: _obj_numbers(model.p))
         Ta = float(prf.get_values(z0, ['temperature'])[0])
         kind = '+'.join(sorted(set(sp['kind'] for sp in scn['particles']))) + (':tracked' if scn['track'] else '')
 
@@ -2235,9 +2427,13 @@ def _build_bpm(S):
             model.simulate(np.array([0., 0., z0]), rel['D'], rel['Vj'], rel['phi_0'], rel['theta_0'], rel['Sj'], Ta + rel['dTj'],
                            np.array(rel['cj'], dtype=float), list(rel['tracers']), particles=parts, track=scn['track'],
                            dt_max=rel['dt_max'], sd_max=rel['sd_max'])
-            return _bpm_positions_ok(model)
+            return _bpm_positions_ok(model, flags=True)
         if S.attempt('bent_plume_model.Model.simulate', kind, scn, sim) is FAILED:
             continue
+        for pt in parts:
+            S.reached('bpm:soluble' if pt.particle.issoluble else 'bpm:inert')
+        if scn['track']:
+            S.reached('bpm:tracked')
         sims.append({'model': model, 'scn': scn, 'prf': prf, 'dir': d, 'kind': kind, 'parts': parts})
     if not sims:
         raise Blocked('no bent-plume simulation completed')
@@ -2306,12 +2502,22 @@ def _bpm_post(S):
                           lambda: model.report_mass_fluxes(idx1, stage=stage, chems=chems, fp_type=fpt), edge=hetero)
         surfaced = model.q[-1, 9] <= 50.
         if surfaced or tracked:
-            def surf():
-                mp, mc, tp, tc_ = model.report_surfacing_fluxes(chems=None, fp_type=r.choice([-1, 0, 1]))
-                # tp: NaN for a particle that did not surface, tc: "Will equal np.nan if the near-field plume does not surface"
-                # (report_surfacing_fluxes docstring and l.1584-1635)
-                return NanOK((mp, mc), (tp, tc_), 'surfacing times of what did not surface')
-            S.attempt(M + 'report_surfacing_fluxes', hk[1:] if hetero else ('surfaced' if surfaced else 'trapped'), scn, surf, edge=hetero)
+            def surf(fps):
+                mp, mc, tp, tc_ = model.report_surfacing_fluxes(chems=None, fp_type=fps)
+                # documented NaN (docstring + l.1584-1635): tc "will equal np.nan if the near-field plume does not surface"; tp[i] is NaN
+                # for a SELECTED particle that did not surface (in the plume: still deeper than 50 m; tracked: never left the plume or
+                # its far-field trajectory ends deeper than 50 m).  Exactly that pattern is accepted, nothing else.
+                exp = np.zeros(len(parts), dtype=bool)
+                for i, pt in enumerate(parts):
+                    if fps < 0 or pt.particle.fp_type == fps:
+                        exp[i] = (pt.z >= 50.) if surfaced else ((not pt.farfield) or pt.sbm.y[-1, 2] >= 50.)
+                tp = np.array(tp, dtype=float)
+                if np.array_equal(np.isnan(tp), exp) and bool(np.isnan(tc_)) == (not surfaced):
+                    tp, tc_ = np.where(exp, 0., tp), (0. if not surfaced else tc_)
+                return mp, mc, tp, tc_
+            for fps in (-1, r.choice([0, 1])):
+                S.attempt(M + 'report_surfacing_fluxes', hk[1:] if hetero else ('surfaced' if surfaced else 'trapped'), dict(scn, fp_type=fps),
+                          lambda fps=fps: surf(fps), edge=hetero)
         else:
             S.skip('tamoc.' + M + 'report_surfacing_fluxes', 'plume trapped and particles not tracked (the method asks for track=True)')
         S.attempt(M + 'report_watercolumn_particle_fluxes', hk[1:] if hetero else 'all-particles', scn,
@@ -2319,18 +2525,43 @@ def _bpm_post(S):
         loc = r.randrange(nt)
         S.attempt(M + 'report_psds', kind + ':stage0', dict(scn, loc=loc, stage=0), lambda: model.report_psds(loc, 0))
         if tracked:
-            zl = r.uniform(0., float(model.q[-1, 9]))
+            def psd_expected(pt, loc):
+                """the branches of report_psds l.1815-1877 that "report no result" (NaN) for one particle"""
+                if not pt.farfield:
+                    return True
+                z = pt.sbm.y[:, 2]
+                if loc < np.max(z):
+                    return True
+                if np.min(z) < loc:
+                    return not (z[0] + 1. > loc)
+                return False
 
-            def psd1():
-                # far-field stage: a particle that was not tracked, is too far from `loc` or lies deeper "reports no result" — NaN
-                # (report_psds l.1815-1877), and the volume fractions are normalised with nansum
-                return NanOK((), model.report_psds(zl, 1), 'no result for this particle at this depth')
-            S.attempt(M + 'report_psds', kind + ':stage1', dict(scn, loc=zl, stage=1), psd1)
+            def psd1(loc, need_value):
+                d_gas, v_gas, d_liq, v_liq = model.report_psds(loc, 1)
+                out = []
+                nvalues = 0
+                for fp0, d, v in ((True, d_gas, v_gas), (False, d_liq, v_liq)):
+                    exp = np.array([psd_expected(pt, loc) for pt in parts if (pt.particle.fp_type == 0) == fp0], dtype=bool)
+                    d, v = np.array(d, dtype=float), np.array(v, dtype=float)
+                    if d.shape == exp.shape and np.array_equal(np.isnan(d), exp) and np.array_equal(np.isnan(v), exp):
+                        nvalues += int(np.sum(~exp))
+                        d, v = np.where(exp, 0., d), np.where(exp, 0., v)
+                    out += [d, v]
+                if need_value and nvalues == 0:
+                    return model.report_psds(loc, 1)       # an all-NaN answer where a value is due is not accepted
+                return out
+            ff = [pt for pt in parts if pt.farfield and np.max(pt.sbm.y[:, 2]) == pt.sbm.y[0, 2]]
+            if ff:
+                zl = float(r.choice(ff).sbm.y[0, 2]) + 0.5        # within 1 m of the start of a far-field trajectory: a value is due
+                S.attempt(M + 'report_psds', kind + ':stage1:at-exit-depth', dict(scn, loc=zl, stage=1), lambda: psd1(zl, True))
+            zr = r.uniform(0., float(model.q[-1, 9]))
+            S.attempt(M + 'report_psds', kind + ':stage1', dict(scn, loc=zr, stage=1), lambda: psd1(zr, False))
         # ---- intrusion layer and far field (need a crossflow to advect the intrusion / the dissolved plume)
         if not soluble:
             S.skip('tamoc.' + M + 'get_intrusion_concentration', 'no soluble particle: there are no dissolved compounds to report')
         elif _crossflow_at_end(sim):
-            S.attempt(M + 'get_intrusion_initial_condition', kind, scn, lambda: model.get_intrusion_initial_condition())
+            for _k in range(2):
+                S.attempt(M + 'get_intrusion_initial_condition', kind, scn, lambda: model.get_intrusion_initial_condition())
             zc = max(float(model.q[-1, 9]), 0.1)
             x = np.array([[r.uniform(10., 5000.), r.uniform(-50., 50.), zc + r.uniform(-5., 5.)] for _ in range(4)])
             for mc in (True, False):
@@ -2343,13 +2574,18 @@ def _bpm_post(S):
                 yv, zv = np.linspace(-20., 20., 3), np.linspace(max(zc - 100., 1.), zc, 3)
                 S.attempt(M + 'get_planar_concentrations', hk[1:] if hetero else 'yz-plane', dict(scn, x=500., y=yv, z=zv),
                           lambda: model.get_planar_concentrations(500., yv.copy(), zv.copy()), edge=hetero)
+                xv = np.linspace(100., 2000., 3)
+                S.attempt(M + 'get_planar_concentrations', hk[1:] if hetero else 'xz-plane', dict(scn, x=xv, y=0., z=zv),
+                          lambda: model.get_planar_concentrations(xv.copy(), 0., zv.copy()), edge=hetero)
                 pt = r.choice(parts)
                 zp = r.uniform(pt.z_min, pt.z_max)
                 xp = np.array([r.uniform(10., 3000.), r.uniform(-20., 20.), zp])
                 for mc in (True, False):
                     S.attempt('bent_plume_model.Particle.point_concentration', '%s:max_C=%s' % (kind, mc), dict(scn, x=xp, max_C=mc),
                               lambda mc=mc: pt.point_concentration(xp.copy(), max_C=mc))
-                S.attempt('bent_plume_model.Particle.grid_concentrations', kind, dict(scn, x=x), lambda: pt.grid_concentrations(x.copy(), True))
+                for mc in (True, False):
+                    S.attempt('bent_plume_model.Particle.grid_concentrations', '%s:max_C=%s' % (kind, mc), dict(scn, x=x, max_C=mc),
+                              lambda mc=mc: pt.grid_concentrations(x.copy(), mc))
             else:
                 S.skip('tamoc.' + M + 'get_grid_concentrations', 'needs the far-field tracking of every particle (track=True and all particles left the plume below the surface)')
         else:
@@ -2374,6 +2610,8 @@ def _bpm_post(S):
                 return _bpm_positions_ok(m), [_particle_numbers(q) for q in m.particles]
             if S.attempt(M + 'load_sim', kind, scn, load) is not FAILED:
                 S.attempt(M + 'get_derived_variables', kind + ':loaded', scn, lambda: _derived_ok(m2.get_derived_variables()))
+                # a second time into the object that already holds a solution (documented use: "rebuild the Model object attributes")
+                S.attempt(M + 'load_sim', kind + ':reload', scn, load)
             S.attempt('bent_plume_model.Model', 'simfile', scn, lambda: _bpm_positions_ok(bpm.Model(simfile=f_nc)))
             _load_particles_direct(S, f_nc, 'bpm.Particle:model-file', scn)
         # ---- Particle methods on the simulated particles (last: they change the particle state)
@@ -2388,8 +2626,10 @@ def _bpm_post(S):
         if not pt.integrate and hasattr(pt, 'te'):
             S.attempt('bent_plume_model.Particle.track', kind + ':outside', scn,
                       lambda: pt.track(float(ql.t_p[i]), np.array([ql.x, ql.y, ql.z]), Xp.copy(), ql))
-        if tracked and pt.z > 0. and pt.farfield:
-            S.attempt('bent_plume_model.Particle.run_sbm', kind, scn, lambda: (pt.run_sbm(prf), pt.sbm.t, pt.sbm.y)[1:])
+        ffp = [q for q in parts if tracked and q.farfield and q.z > 0.]
+        for j in range(2 if ffp else 0):
+            p2 = ffp[j % len(ffp)]
+            S.attempt('bent_plume_model.Particle.run_sbm', kind, dict(scn, particle=parts.index(p2)), lambda p2=p2: (p2.run_sbm(prf), p2.sbm.t, p2.sbm.y)[1:])
         Ta, Sa, Pa = prf.get_values(float(ql.z), ['temperature', 'salinity', 'pressure'])
         S.attempt('bent_plume_model.Particle.outside', kind, dict(scn, Ta=Ta, Sa=Sa, Pa=Pa),
                   lambda: (pt.outside(Ta, Sa, Pa), [pt.us, pt.rho_p, pt.A, pt.Cs, pt.beta, pt.beta_T, pt.T])[1])
@@ -2405,10 +2645,10 @@ def _derived_ok(res):
 def _txt_ok(path, model):
     """state space written by save_txt: column 0 is the time, then q — same documented NaN slots as the state space"""
     a = np.atleast_2d(np.loadtxt(path))
-    pos = np.concatenate(([False], _bpm_pos_mask(model)))
-    if len(pos) != a.shape[1]:
+    sl, n = _bpm_pos_slices(model)
+    if n + 1 != a.shape[1]:
         return a
-    return NanOK(a[:, ~pos], a[:, pos], 'positions of particles outside the plume')
+    return _positions_checked(a, [(x + 1, y + 1) for x, y in sl])
 
 
 @entry('bent_plume_model.ModelParams', 'bent_plume_model.Particle', 'bent_plume_model.LagElement', 'bent_plume_model.width_projection',
@@ -2453,7 +2693,7 @@ def _spm_spec(S, k, cap=None):
     """seeded stratified-plume scenario (harness/scen_spm.py, the generator of C06): soluble and inert particles"""
     import scen_spm
     r = S.r
-    n_sol, n_inert = ((1, 1), (1, 0), (0, 1), (2, 1), (2, 0))[k % 5]
+    n_sol, n_inert = ((1, 1), (0, 1), (1, 0), (2, 1), (2, 0))[k % 5]
     spec = scen_spm.random_spec(r, n_sol, n_inert, background=r.random() < 0.5)
     # the run time grows with the height of rise: release depth capped (quick 250 m, thorough 600 m)
     spec['z0'] = min(spec['z0'], S.ctx.n(250., 600.) * (cap if cap else 1.))
@@ -2472,7 +2712,7 @@ def _build_spm(S):
     import scen_spm
     from tamoc import stratified_plume_model as spm
     sims = []
-    for k in range(S.reps(S.ctx.n(1, S.nsim))):
+    for k in range(S.reps(S.nsim)):
         spec = _spm_spec(S, k)
         sc = scen_spm.build(spec)
         try:
@@ -2482,6 +2722,7 @@ def _build_spm(S):
         model = S.attempt('stratified_plume_model.Model', 'profile', spec['profile'], lambda: spm.Model(prf))
         if model is FAILED:
             continue
+        S.attempt('stratified_plume_model.Model', 'profile:attributes', None, lambda: _obj_numbers(model.p))
         kind = _spm_kind(spec)
 
         def sim():
@@ -2489,6 +2730,8 @@ def _build_spm(S):
             return model.zi, model.yi, model.zo, model.yo
         if S.attempt('stratified_plume_model.Model.simulate', kind, spec, sim) is FAILED:
             continue
+        for ps_ in spec['particles']:
+            S.reached('spm:soluble' if ps_['soluble'] else 'spm:inert')
         sims.append({'model': model, 'spec': spec, 'sc': sc, 'prf': prf, 'dir': d, 'kind': kind})
     if not sims:
         raise Blocked('no stratified-plume simulation completed')
@@ -2548,8 +2791,10 @@ def _spm_post(S):
 
 
 def _obj_numbers(o):
-    """every numeric attribute of a plume object"""
-    return {k: v for k, v in vars(o).items() if isinstance(v, (int, float, np.floating, np.ndarray)) and not isinstance(v, bool)}
+    """every numeric attribute of an object.  Not inspected: Aij / Bij of the dbm classes — the group-interaction tables of
+    Privat & Jaubert read from data/Aij.csv, Bij.csv, whose cells for group pairs without published parameters are NaN"""
+    return {k: v for k, v in vars(o).items() if isinstance(v, (int, float, np.floating, np.ndarray)) and not isinstance(v, bool)
+            and k not in ('Aij', 'Bij')}
 
 
 @entry('stratified_plume_model.ModelParams', 'stratified_plume_model.InnerPlume', 'stratified_plume_model.OuterPlume',
@@ -2573,7 +2818,7 @@ def _spm_functions(S):
                   lambda: _particle_numbers(spm.particle_from_Q(prf, z0, obj, yk.copy(), Q_N, de, lam, T0, **w)))
         S.attempt('stratified_plume_model.particle_from_mb0', sp['kind'], dict(d, mb0=mb0),
                   lambda: _particle_numbers(spm.particle_from_mb0(prf, z0, obj, yk.copy(), mb0, de, lam, T0, **w)))
-    for i in range(S.reps(max(1, S.n // 6))):
+    for i in range(S.reps(max(2, S.n // 6))):
         # ---- model pieces, called the way Model.simulate calls them
         spec = _spm_spec(S, i, cap=0.6)
         sc = scen_spm.build(spec)
@@ -2647,7 +2892,7 @@ def _build_blowouts(S):
     from tamoc import blowout
     r = S.r
     out = []
-    for k in range(S.reps(max(1, S.nsim // 2))):
+    for k in range(S.reps(max(2, S.nsim // 2))):
         H = r.choice([1000., 1500., 2500.])
         ps = profile_spec(r, H=H, current='none')
         wk = ('world', 'profile', 'dict', 'ncfile', 'txt')[k % 5]
@@ -2733,6 +2978,7 @@ def _blowout_obj(S):
             return _bpm_positions_ok(b.bpm)
         if S.attempt(B + 'simulate', 'track=%s' % b.track, dict(d, sd_max=b.sd_max), sim) is FAILED:
             continue
+        S.reached('blowout:simulate')
         dd = S.tmp('blow')
         os.makedirs(dd)
         write_profile_nc(S, b.profile, os.path.join(dd, 'profile.nc'))
@@ -2741,7 +2987,7 @@ def _blowout_obj(S):
                   lambda: (b.save_txt(os.path.join(dd, 'blowout_state'), 'profile.nc', 'C20 profile'), _txt_ok(os.path.join(dd, 'blowout_state.txt'), b.bpm))[1])
     # ---- documented current form with its own key: profile of (depth, u, v) without the optional vertical component
     cur = np.array([[0., 0.1, 0.02], [5000., 0.05, 0.]])
-    S.attempt('blowout.Blowout', 'current-2D-depth-u-v', {'current': cur}, lambda: _blowout_numbers(blowout.Blowout(z0=500., current=cur.copy(), num_gas_elements=2, num_oil_elements=2)), edge=True)
+    S.attempt('blowout.Blowout', 'current-2D-depth-u-v', {'current': cur}, lambda: _blowout_numbers(blowout.Blowout(z0=500., current=cur.copy(), num_gas_elements=2, num_oil_elements=2)))
 
 
 @entry('blowout.particles', 'blowout.get_ambient_profile', 'blowout.get_ctd_from_txt', 'blowout.create_ambient_profile')
@@ -2807,18 +3053,55 @@ def _blowout_functions(S):
                                                                           'C20', 'harness/c20.py', 'No Sea Name', 28.5, -89.3, p_time, list(ca))))
     cur = np.array([[0., 0.1, 0.02], [5000., 0.05, 0.]])
     S.attempt('blowout.get_ambient_profile', 'current-2D-depth-u-v', {'water': None, 'current': cur},
-              lambda: _profile_numbers(blowout.get_ambient_profile(None, cur.copy())), edge=True)
+              lambda: _profile_numbers(blowout.get_ambient_profile(None, cur.copy())))
 
 
 # =====================================================================================================
 # the check
 # =====================================================================================================
 
+# pinned inventory of the documentation this table was written against (a renamed / shortened docs tree or a thinned-out
+# TABLE must not look complete): 300 documented names, 37 justified exclusions, 263 entry points with a caller
+DOCUMENTED_MIN = 300
+EXCLUDED_MAX = 37
+CALLED_MIN = 263
+CALL_FLOOR = 2            # every entry point with a caller is called at least twice in every tier
+# branches / configurations every run (quick included) has to reach at least once
+REACH_FLOORS = ['seawater:hot-branch', 'seawater:above-boiling', 'seawater.k:S>35', 'InsolubleParticle:rigid', 'InsolubleParticle:fluid',
+                'FluidParticle:gas', 'FluidParticle:liquid', 'FluidParticle:mixed-two-phase', 'sbm:soluble', 'sbm:inert',
+                'bpm:soluble', 'bpm:inert', 'bpm:tracked', 'spm:soluble', 'spm:inert', 'blowout:simulate',
+                'equilibrium:two-phase', 'equilibrium:single-phase']
+MIN_VERSIONS = {'numpy': (1, 16), 'scipy': (1, 2)}        # README.rst "Requirements" (re-read from the repo under test at run time)
+
+
+def _version_tuple(v):
+    out = []
+    for part in re.split(r'[.+]', v)[:3]:
+        m = re.match(r'\d+', part)
+        out.append(int(m.group(0)) if m else 0)
+    return tuple(out)
+
+
+def declared_minimum_versions(repo=None):
+    """'* Numpy version 1.16 or higher' / '* Scipy version 1.2.0 or higher' in README.rst of the repo under test"""
+    out = dict(MIN_VERSIONS)
+    try:
+        txt = open(os.path.join(repo or common.REPO, 'README.rst')).read()
+        for name in out:
+            m = re.search(r'\*\s*%s version (\d+(?:\.\d+)*) or higher' % name, txt, re.I)
+            if m:
+                out[name] = _version_tuple(m.group(1))
+    except OSError:
+        pass
+    return out
+
+
 def run(ctx, lean_ok):
+    import scipy
     np.random.seed(ctx.rng.randrange(2 ** 31))      # tamoc's far-field concentration model draws from numpy's global RNG
     eps = documented_entry_points()
     S = Scn(ctx)
-    only = os.environ.get('C20_ONLY')               # debugging aid: regular expression on entry-point names
+    only = os.environ.get('C20_ONLY')               # debugging aid: regular expression on entry-point names (recorded; fails coverage)
     excluded, uncovered, blocked, done = {}, [], {}, set()
     try:
         for ep in eps:
@@ -2839,6 +3122,9 @@ def run(ctx, lean_ok):
                 ent(S)
             except CallFailed:
                 pass
+            except AbortRun as ab:
+                ctx.notes.append('RUN ABANDONED: %s' % ab)
+                break
             except Blocked as b:
                 for e2 in [e for e in eps if TABLE.get(e) is ent]:
                     blocked[e2] = str(b)
@@ -2846,29 +3132,47 @@ def run(ctx, lean_ok):
                 raise
             except Exception as e:      # noqa: BLE001 — input preparation raised (tamoc set-up call or harness bug): never hide it
                 tb = sys.exc_info()[2]
-                S._violate('raises:' + ep, 'preparing the inputs of %s raised %s' % (ep, type(e).__name__),
+                S._violate('raises:%s:%s:input-preparation' % (ep, raise_signature(e, tb)),
+                           'preparing the inputs of %s raised %s' % (ep, type(e).__name__),
                            {'entry_point': ep, 'stage': 'input preparation (outside the call under test)',
                             'exception': '%s: %s' % (type(e).__name__, str(e)[:300]), 'failing_line': tamoc_frame(tb),
                             'traceback': ''.join(traceback.format_exception(type(e), e, tb))[-2500:], 'seed': ctx.seed})
     finally:
         S.cleanup()
-    called = sorted(e for e in eps if S.calls.get(e, 0) > 0)
+    with_caller = [e for e in eps if callable(TABLE.get(e))]
+    called = sorted(e for e in with_caller if S.calls.get(e, 0) > 0)
     table_only = sorted(e for e in TABLE if e not in eps)
-    not_called = sorted(e for e in eps if callable(TABLE.get(e)) and S.calls.get(e, 0) == 0 and e not in blocked
-                        and not (only and not re.search(only, e)))
+    not_called = sorted(e for e in with_caller if S.calls.get(e, 0) == 0)
+    below_floor = sorted((e, S.calls.get(e, 0)) for e in with_caller if 0 < S.calls.get(e, 0) < CALL_FLOOR)
+    n_excl = sum(len(v) for v in excluded.values())
     ctx.evaluations = int(sum(S.calls.values()))
+    for k, v in sorted(S.reach.items()):
+        ctx.count('reach:' + k, v)
+    versions = {'numpy': np.__version__, 'scipy': scipy.__version__, 'python': sys.version.split()[0]}
+    for mod in ('netCDF4', 'xarray'):
+        try:
+            versions[mod] = __import__(mod).__version__
+        except Exception:      # noqa: BLE001
+            versions[mod] = 'not importable'
+    declared = declared_minimum_versions()
     cov = {
         'documented': len(eps), 'called': len(called), 'excluded': {k: len(v) for k, v in excluded.items()},
-        'excluded_total': sum(len(v) for v in excluded.values()), 'uncovered': len(uncovered), 'blocked': len(blocked),
-        'in_table_but_never_called': len(not_called), 'calls': ctx.evaluations,
+        'excluded_total': n_excl, 'uncovered': len(uncovered), 'blocked': len(blocked),
+        'in_table_but_never_called': len(not_called), 'called_less_than_floor': len(below_floor), 'calls': ctx.evaluations,
+        'C20_ONLY': only, 'docs_parsed': os.path.join(common.REPO, 'docs', '_sources', 'modules', '*.rst'),
     }
     ctx.notes.append('entry points: %r' % cov)
+    ctx.notes.append('installed versions: %r; declared minimum (README.rst Requirements): %r' % (versions, {k: '.'.join(map(str, v)) for k, v in declared.items()}))
+    if only:
+        ctx.notes.append('FILTERED RUN: C20_ONLY=%r restricts the entry points that are called; this run is NOT a complete check' % only)
     if uncovered:
         ctx.notes.append('uncovered (documented, no caller and no exclusion in the table): %s' % ', '.join(uncovered))
     if blocked:
         ctx.notes.append('blocked (a scenario they need could not be built; the failing entry point is reported): %r' % blocked)
     if not_called:
         ctx.notes.append('in the table but not reached in this run: %s' % ', '.join(not_called))
+    if below_floor:
+        ctx.notes.append('called fewer than %d times: %r' % (CALL_FLOOR, below_floor))
     if table_only:
         ctx.notes.append('table entries that the docs of this repo do not list: %s' % ', '.join(table_only))
     if S.preconditions:
@@ -2877,12 +3181,29 @@ def run(ctx, lean_ok):
         ctx.notes.append('violation counts per key: %r' % S.failed)
     if S.slow:
         ctx.notes.append('calls slower than 20 s (entry point, kind, seconds, inputs if > 120 s): %r' % S.slow)
-    ctx.oblige('every documented entry point is called, excluded with a reason, or listed as uncovered (%d = %d + %d + %d + %d blocked/unreached)'
-               % (len(eps), len(called), cov['excluded_total'], len(uncovered), len(blocked) + len(not_called)),
-               len(eps) == len(called) + cov['excluded_total'] + len(uncovered) + len(blocked) + len(not_called)
-               or bool(only), '')
-    ctx.oblige('the docs list public entry points (parsed %d)' % len(eps), len(eps) > 0, 'no docs/_sources/modules/*.rst found')
-    ctx._c20 = {'coverage': cov, 'excluded': excluded, 'uncovered': uncovered, 'blocked': blocked,
+    # ---- coverage obligations (each one fails the check when it does not hold)
+    ctx.oblige('run is not filtered (C20_ONLY unset)', not only, 'C20_ONLY=%r' % only)
+    ctx.oblige('docs/_sources/modules/*.rst of the repo under test list at least the %d public entry points this table was written for (parsed %d)'
+               % (DOCUMENTED_MIN, len(eps)), len(eps) >= DOCUMENTED_MIN, 'parsed %d names from %s' % (len(eps), cov['docs_parsed']))
+    ctx.oblige('uncovered == []: every documented entry point has a caller or a justified exclusion', not uncovered, ', '.join(uncovered[:40]))
+    ctx.oblige('every table row is a documented entry point (no stale / renamed names)', not table_only, ', '.join(table_only[:40]))
+    ctx.oblige('at most %d exclusions (12 module headers, 23 plotting, 2 documented-unusable); found %d' % (EXCLUDED_MAX, n_excl),
+               n_excl <= EXCLUDED_MAX, repr({k: len(v) for k, v in excluded.items()}))
+    ctx.oblige('not_called == [] and blocked == []: every entry point with a caller was called (%d of %d, floor %d)' % (len(called), len(with_caller), CALLED_MIN),
+               not not_called and not blocked and len(called) >= CALLED_MIN,
+               'not called: %s; blocked: %s' % (', '.join(not_called[:40]), ', '.join(list(blocked)[:40])))
+    ctx.oblige('every entry point with a caller was called at least %d times' % CALL_FLOOR, not below_floor and not not_called, repr(below_floor[:40]))
+    missing = [k for k in REACH_FLOORS if S.reach.get(k, 0) < 1]
+    mixed_missing = [m for m in FP_METHODS if S.reach.get('FluidParticle.%s:mixed-two-phase' % m, 0) < 1]
+    ctx.oblige('branches / configurations reached at least once: %s' % ', '.join(REACH_FLOORS), not missing, 'not reached: %r' % missing)
+    ctx.oblige('every FluidParticle method was called on a particle that is two-phase at the state of the call', not mixed_missing,
+               'not reached on a mixed-phase particle: %r' % mixed_missing)
+    for name, vmin in declared.items():
+        ctx.oblige('installed %s %s >= declared minimum %s' % (name, versions[name], '.'.join(map(str, vmin))),
+                   _version_tuple(versions[name]) >= tuple(vmin), '')
+    ctx._c20 = {'coverage': cov, 'excluded': excluded, 'uncovered': uncovered, 'blocked': blocked, 'versions': versions,
+                'declared_minimum_versions': {k: '.'.join(map(str, v)) for k, v in declared.items()},
+                'reach': dict(sorted(S.reach.items())), 'called_less_than_floor': below_floor,
                 'calls_per_entry_point': dict(sorted(S.calls.items())),
                 'input_kinds': {k: sorted(v) for k, v in sorted(S.kinds.items())}}
 
